@@ -34,6 +34,7 @@ type Contract struct {
 	Tags     []string
 	Requires []*Clause
 	Ensures  []*Clause
+	XEnsures []*Clause // exceptional postconditions (hold when the call panics)
 	Panics   []*Clause // may-panic conditions (over the pre-state)
 	Modifies []ModTarget
 	GhostSets []GhostSet
@@ -116,7 +117,7 @@ var (
 )
 
 var blockKeywords = map[string]bool{"func": true, "extern": true, "functype": true, "trusted": true, "loop": true, "ghost": true, "spec": true, "impl": true}
-var clauseKeywords = map[string]bool{"requires": true, "ensures": true, "defines": true, "panics": true, "modifies": true, "invariant": true, "decreases": true, "expect": true, "vars": true, "pure": true, "ghostset": true}
+var clauseKeywords = map[string]bool{"requires": true, "ensures": true, "xensures": true, "defines": true, "panics": true, "modifies": true, "invariant": true, "decreases": true, "expect": true, "vars": true, "pure": true, "ghostset": true}
 
 func splitList(s string) []string {
 	var out []string
@@ -241,7 +242,9 @@ func (ct *ContractTable) parseLines(lines []rawLine, pkg string) error {
 				return errf("%v", err)
 			}
 			c.Params, c.Results, c.Tags = params, results, tags
-			if kw == "functype" && strings.Contains(name, ":") {
+			if kw == "functype" && strings.HasPrefix(name, "field:") {
+				c.Key = "functype:field:" + pkg + "." + strings.TrimPrefix(name, "field:")
+			} else if kw == "functype" && strings.Contains(name, ":") {
 				k := strings.LastIndex(name, ":")
 				c.Key = "functype:" + qualifyFuncKey(name[:k], pkg) + ":" + name[k+1:]
 			} else if kw == "functype" {
@@ -331,7 +334,7 @@ func (ct *ContractTable) parseLines(lines []rawLine, pkg string) error {
 				ct.Impls = append(ct.Impls, ImplDecl{Iface: qualifyTypeName(strings.TrimSpace(parts[0]), pkg), Conc: qualifyTypeName(c, pkg)})
 			}
 			curC, curL = nil, nil
-		case "requires", "ensures", "panics", "invariant", "decreases", "defines":
+		case "requires", "ensures", "panics", "invariant", "decreases", "defines", "xensures":
 			cl := &Clause{Kind: kw, File: l.file, Line: l.line}
 			if m := reTags.FindStringSubmatch(rest); m != nil {
 				cl.Tags = splitList(m[1])
@@ -359,6 +362,8 @@ func (ct *ContractTable) parseLines(lines []rawLine, pkg string) error {
 				curC.Requires = append(curC.Requires, cl)
 			case curC != nil && kw == "ensures":
 				curC.Ensures = append(curC.Ensures, cl)
+			case curC != nil && kw == "xensures":
+				curC.XEnsures = append(curC.XEnsures, cl)
 			case curC != nil && kw == "defines":
 				cl.Kind = "defines"
 				curC.Ensures = append(curC.Ensures, cl)
